@@ -127,6 +127,12 @@ def judge(acc, case, label, key, info):
             if not r2.diffs and r2.status not in ('unpred', 'skip', 'host-error'):
                 acc.known_hit(k)
                 return
+        for k in known.match_elsewhere('C08', res, case):
+            r2 = diff.run(case, quirks=(k,))
+            if not r2.diffs and r2.status not in ('unpred', 'skip', 'host-error'):
+                acc.excluded += 1
+                acc.cls('excluded:finding-listed-under-another-property:' + k)
+                return
         acc.violation('C08:%s:step%d:%s:%s' % (label, res.step, res.row, e1prop.sig(res.diffs)), case,
                       dict(info, diffs=e1.fmt_diff(res.diffs), ref_status=res.status, step=res.step))
 
